@@ -253,6 +253,9 @@ func (t *runner) byteIn(lo, hi byte) byte {
 // sub-ranges one byte longer.
 func (t *runner) genCSR() charcode.CodeSpaceRange {
 	r := t.e.Rand
+	if r.IntN(12) == 0 {
+		return leadingZeroCSRs[r.IntN(len(leadingZeroCSRs))]
+	}
 	switch r.IntN(10) {
 	case 0:
 		return charcode.Simple
@@ -1695,6 +1698,12 @@ func (t *runner) corpus() {
 		{Data: map[charcode.Code]cid.CID{0x41: 1, 0x42: 2}, HasROS: true, NdRng: []ndRange{{First: []byte{0}, Last: []byte{0xff}, Value: 9}}},
 		{Data: map[charcode.Code]cid.CID{}, HasROS: true}},
 		Probes: simpleProbes(0x40, 0x44), Class: "empty-level"}, true)
+	// <41> and <0042>, <FF> and <0100>: numeric neighbours of different lengths with consecutive values
+	lz := leadingZeroCSRs[0]
+	t.runCID(&cidCase{CSR: lz, Levels: []cidLevel{{Data: map[charcode.Code]cid.CID{0x41: 5, 0x4200: 6, 0x4300: 7, 0xff: 9, 0x0001: 10}, HasROS: true}},
+		Probes: [][]byte{{0x41}, {0, 0x42}, {0, 0x43}, {0xff}, {1, 0}, {0, 0x41}, {0x42}, {0, 0xff}, {1, 1}}, Class: "leading-zero-codes"}, true)
+	t.runTU(&tuCase{CSR: lz, Levels: []map[charcode.Code]string{{0x41: "a", 0x4200: "b", 0x4300: "c", 0xff: "x", 0x0001: "y"}},
+		Probes: [][]byte{{0x41}, {0, 0x42}, {0, 0x43}, {0xff}, {1, 0}, {0, 0x41}, {0x42}, {0, 0xff}, {1, 1}}, Class: "leading-zero-codes"}, true)
 	// two-byte codes, run over the last-byte boundary
 	t.runTU(&tuCase{CSR: charcode.UCS2, Levels: []map[charcode.Code]string{{0xFE01: "a", 0xFF01: "b", 0x0002: "c", 0x0102: "d"}},
 		Probes: [][]byte{{1, 0xfe}, {1, 0xff}, {2, 0}, {2, 1}, {2, 2}, {1, 0xfd}, {1}, {}}, Class: "corpus"}, true)
@@ -1799,6 +1808,16 @@ func main() {
 		withModel := class == "runs" || i%200 == 7 || i%400 == 13
 		t.runCID(t.genCIDCase(class), withModel)
 		t.runTU(t.genTUCase(class), withModel)
+	}
+	// mixed-length code spaces whose longer codes start with zero bytes; values that run on across the lengths
+	n = e.Pick(300, 6000)
+	for i := 0; i < n; i++ {
+		if cs := t.genMixedCID(); cs != nil {
+			t.runCID(cs, true)
+		}
+		if cs := t.genMixedTU(); cs != nil {
+			t.runTU(cs, true)
+		}
 	}
 	// parent chains that SetMapping did not build: hand-made (overlapping, wide), predefined names, predefined objects
 	n = e.Pick(400, 6000)
